@@ -97,6 +97,13 @@ SKELETONS = {
     "false_only_in_single_positions": ({"doc.json": {
         "type": "object", "title": "Root", "properties": {"gone": False, "n": {"type": "integer", "minimum": 0}}, "required": ["n"]}},
         "doc.json", '{"n": x, **({"gone": y} if h1 else {}), **({"other": y} if h2 else {})}'),
+    "equal_shapes_different_titles": ({"doc.json": {
+        "type": "object", "title": "Basket", "properties": {
+            "apples": {"type": "array", "items": {"type": "object", "title": "Apple", "properties": {"n": {"type": "integer", "minimum": 0}}}},
+            "pears": {"type": "array", "items": {"type": "object", "title": "Pear", "properties": {"n": {"type": "integer", "minimum": 0}}}},
+            "left": {"type": "object", "title": "Left", "properties": {"child": {"type": "object", "title": "LeftChild", "required": ["k"]}}},
+            "right": {"type": "object", "title": "Right", "properties": {"child": {"type": "object", "title": "RightChild", "required": ["k"]}}}}}},
+        "doc.json", '{"apples": [{"n": x}], **({"pears": [{"n": y}, {"n": x}]} if h1 else {}), **({"left": {"child": {"k": x}}, "right": {"child": ({"k": y} if y > 0 else {})}} if h2 else {})}'),
     "pointer_entry": ({"doc.json": {"definitions": {"Entry": {"type": "object", "properties": {"k": {"$ref": "#/definitions/K"}}, "required": ["k"]},
                                                     "K": {"type": "object", "properties": {"n": {"type": "integer", "minimum": 2}}}}}},
                       "doc.json#/definitions/Entry", '{"k": ({"n": x} if h1 else {"m": y}), **({"z": y} if h2 else {})}'),
@@ -214,7 +221,7 @@ def accepted(name, v):
 
 def harnesses(ctx) -> List[H]:
     hs: List[H] = []
-    quick = {"root_def_def", "shared_def", "cross_file", "untitled_nested", "repeated_titles", "defaults_equal_to_constructor", "renamed_and_literals", "boolean_subschemas", "false_only_in_single_positions"}
+    quick = {"root_def_def", "shared_def", "cross_file", "untitled_nested", "repeated_titles", "defaults_equal_to_constructor", "renamed_and_literals", "boolean_subschemas", "false_only_in_single_positions", "equal_shapes_different_titles"}
     for name, (_files, _entry, build) in SKELETONS.items():
         hs.append(mk(f"c02_{name}", "x: int, y: int, h1: bool, h2: bool", [], f"v = {build}\nreturn equivalent({name!r}, v)", timeout=200, group="skeleton",
                      tier="quick" if name in quick else "thorough", covers=f"skeleton {name}: main() output executes, defines the parser's classes (equal), root verdict/result equal for the value family {build}"))
